@@ -281,11 +281,33 @@ class C09Run(StateRun):
     def op_install(self):
         self.attacher = self.make_attacher('first')
         self.attacher_installed = True
+        self.installed_obj = self.attacher
+        if self.ch.chance(1, 3, 'priority'):
+            # the library's own composition of attachers: sub-attachers are consulted in priority order and the
+            # first one with an opinion wins; ours sits behind two that never have one (one of them removed again)
+            from txtorcon.attacher import PriorityAttacher
+            from txtorcon.interface import IStreamAttacher
+
+            @implementer(IStreamAttacher)
+            class Silent(object):
+                def attach_stream(self, stream, circuits):
+                    return None
+
+                def attach_stream_failure(self, stream, fail):
+                    return None
+            pa = PriorityAttacher()
+            gone = Silent()
+            pa.add_attacher(gone, priority=0)
+            pa.add_attacher(Silent(), priority=0)
+            pa.add_attacher(self.attacher, priority=self.ch.pick([0, 1, 5], 'prio'))
+            pa.remove_attacher(gone)
+            self.installed_obj = pa
+            self.sim.probe('priority-attacher')
         self.sim.log('set_attacher')
-        self.state.set_attacher(self.attacher, self.sim.reactor)
+        self.state.set_attacher(self.installed_obj, self.sim.reactor)
         # installing the same attacher again is a no-op
         if self.ch.chance(1, 3, 'again'):
-            self.state.set_attacher(self.attacher, self.sim.reactor)
+            self.state.set_attacher(self.installed_obj, self.sim.reactor)
 
     def op_second(self):
         self.second_tried = True
